@@ -102,6 +102,12 @@ def gen_case(rng):
             stmts.append('time at {} on all'.format(pat))
             expected.append(('wu', pat))
             current = None
+            if rng.random() < 0.4:
+                # the pattern stays in force: the next command waits for it
+                # as well, and the minute that ended the first wait ends this
+                # one too
+                stmts.append(rng.choice(['off "A"', 'on all', 'wait']))
+                expected.append(('wu', pat))
             continue
         if current is not None and k and rng.random() < 0.35:
             # the register keeps its value: the same delay again
@@ -310,6 +316,14 @@ def check_rules(ctx, out, expected, replay, script):
                                       in_pf['entered'], due, script), replay)
                     return False
             if in_wu is not None:
+                if not in_wu.get('queried'):
+                    ctx.violation('T4:waits-without-consulting-the-pattern',
+                                  'at {:.2f} the time-of-day wait goes (back) '
+                                  'to sleep without having checked the current '
+                                  'minute against its pattern | {}'.format(
+                                      t, script), replay)
+                    return False
+                in_wu['queried'] = False
                 in_wu['waits_after_check'] = True
                 in_wu['seen_at'] = t
                 if in_wu.get('matched'):
@@ -334,6 +348,7 @@ def check_rules(ctx, out, expected, replay, script):
                 ctx.violation('T4:pattern-changed', 'check of minute {} gave '
                               '{} | {}'.format(e[2], e[3], script), replay)
                 return False
+            in_wu['queried'] = True
             in_wu['matched'] = e[3]
             in_wu['matched_at'] = t
             in_wu['waits_after_check'] = False
